@@ -37,6 +37,22 @@ def subs : F Float → List (F Float)
 def tainted (w : Env Float) (n : Nat) (φ : F Float) : Bool :=
   (subs φ).any (fun ψ => (List.range n).any (fun t => (rho (sigma w) n ψ t).isNaN))
 
+def parseInt (s : String) : Option Int :=
+  if s.startsWith "-" then (s.drop 1).toString.toNat?.map (fun n => - (n : Int)) else s.toNat?.map (fun n => (n : Int))
+
+/-- `p/q` or `p` -/
+def parseRat (s : String) : Option Rat :=
+  match s.splitOn "/" with
+  | [p] => (parseInt p).map (fun n => (n : Rat))
+  | [p, q] => do
+      let n ← parseInt p
+      let d ← q.toNat?
+      if d = 0 then none else pure (mkRat n d)
+  | _ => none
+
+def parseUnit : String → Option TUnit
+  | "s" => some .s | "ms" => some .ms | "us" => some .us | "ns" => some .ns | _ => none
+
 def parseEnv (fields : List String) : Option (Env Float) := fields.mapM parseSignal
 
 def handle (line : String) : String :=
@@ -61,6 +77,39 @@ def handle (line : String) : String :=
           let es := (List.range n).map (fun t => fun x => sigma w x t)
           showRes (runOnline Generated.onlineDiscrete.handles Generated.onlineDiscrete.raises φ es)
       | _, _, _ => "bad-input"
+  | "counter" :: period :: punit :: tol :: unit :: start :: ts :: _ =>
+      -- model of the sampling-violation counter: online fold, offline loop, specification
+      match parseRat period, parseUnit punit, parseRat tol, parseUnit unit, start.toNat?, (words ts).mapM parseRat with
+      | some p, some pu, some tl, some u, some st, some tsl =>
+          let c : SamplingCfg := { period := p, periodUnit := pu, tol := tl, unit := u }
+          s!"ok {onlineCounter c tsl} {offlineCounter c st tsl} {(gaps tsl).countP c.outside}"
+      | _, _, _, _, _, _ => "bad-input"
+  | "units" :: unit :: period :: punit :: b :: bu :: e :: eu :: _ =>
+      -- elaboration of one surface interval: discrete samples and dense default-unit bounds
+      let ou (s : String) : Option (Option TUnit) := if s = "-" then some none else (parseUnit s).map some
+      match parseUnit unit, parseRat period, parseUnit punit, parseRat b, ou bu, parseRat e, ou eu with
+      | some u, some p, some pu, some b, some bu, some e, some eu =>
+          let c : UnitCfg := { unit := u, period := p, periodUnit := pu }
+          let i : SIv := { b := b, e := e, bu := bu, eu := eu }
+          let d := i.toDefault u
+          let dense := s!"{d.1.num}/{d.1.den} {d.2.num}/{d.2.den}"
+          match i.toSamples c with
+          | .ok (lo, hi) => s!"ok {lo} {hi} | {dense}"
+          | .error _ => s!"err rtamt | {dense}"
+      | _, _, _, _, _, _, _ => "bad-input"
+  | "ondreset" :: f :: npre :: n :: sigs =>
+      -- feed samples 0..npre-1, reset(), feed samples npre..n-1 ; prints post-reset outputs
+      match parseFormula f, npre.toNat?, n.toNat?, parseEnv sigs with
+      | some φ, some npre, some n, some w =>
+          let es := (List.range n).map (fun t => fun x => sigma w x t)
+          let r : Except PyErr (List Float) := do
+            let st0 ← initTree Generated.onlineDiscrete.handles Generated.onlineDiscrete.raises φ
+            let (st1, _) ← runTree φ st0 (es.take npre)
+            let st2 := resetTree φ st1
+            let (_, os) ← runTree φ st2 (es.drop npre)
+            pure os
+          showRes r
+      | _, _, _, _ => "bad-input"
   | "sat" :: f :: n :: sigs =>
       match parseFormula f, n.toNat?, parseEnv sigs with
       | some φ, some n, some w =>
